@@ -137,6 +137,7 @@ func genC03(g engine.G) *engine.Case {
 	for _, p := range b.Sc.Target.In {
 		b.AddInput(engine.Label{Name: p.Name, Type: p.Type, Sub: p.Sub})
 	}
+	b.Sc.JoinTyped = g.Pct(30)
 	return &engine.Case{Sc: b.Sc, Reps: 3}
 }
 
